@@ -1302,6 +1302,19 @@ class QasmVisitor:
             validated_l_indices = Qasm3Analyzer.analyze_classical_indices(
                 l_indices, lvar, Qasm3ExprEvaluator  # type: ignore[arg-type]
             )
+            if isinstance(rvalue_eval, np.ndarray):
+                # the selected cells and the assigned array must have the same shape
+                target_shape = np.shape(
+                    Qasm3Analyzer.find_array_element(
+                        lvar.value, validated_l_indices  # type: ignore[union-attr, arg-type]
+                    )
+                )
+                if target_shape != rvalue_eval.shape:
+                    raise_qasm3_error(
+                        f"Invalid dimensions for array assignment to variable {lvar_name}. "
+                        f"Expected {target_shape} but got {rvalue_eval.shape}",
+                        span=statement.span,
+                    )
             Qasm3Transformer.update_array_element(
                 multi_dim_arr=lvar.value,  # type: ignore[union-attr, arg-type]
                 indices=validated_l_indices,
